@@ -193,6 +193,9 @@ class C17(Check):
         widget._ti_h_align, widget._ti_v_align = h_al, v_al
         canv = U.UrwidImageCanvas(render, (cols, rows), (w, h))
         canv.finalize(widget, (cols, rows), False)
+        # the image object is resized after the canvas was rendered (the widget was rendered at another size, or another
+        # widget shares the image): a canvas is a finished rendering and must not depend on the image's current size
+        img._size = (w + 3, h + 1)
         full = [self.row_bytes(eng, r) for r in canv.content()]
         eng.claim("untrimmed canvas yields one row per canvas row", len(full) == rows)
         # the requested sub-rectangle: solver-forked selectors
